@@ -124,12 +124,24 @@ def run(ctx):
             kw["color_mask"] = mask
         logo_img = None
         if logo:
-            logo_img = Image.new("RGBA" if logo[0] == "rgba" else "RGB", (40, 40), (200, 30, 30, 200) if logo[0] == "rgba" else (200, 30, 30))
+            size_ = (q._version * 4 + 17 + 2 * border) * box
+            w_ = int(size_ * logo[1])
+            side_ = size_ - 2 * (int((int(size_ / 2) - int(w_ / 2)) / box) * box)
+            shape = [(40, 40), (side_, side_), (side_, 2 * side_ - 3), (2 * side_ + 1, side_), (max(1, side_ - 1), side_ + 7), (w_, w_ * 2), (max(1, w_), max(1, w_ // 3))][idx % 7]
+            shape = (max(1, shape[0]), max(1, shape[1]))
+            logo_img = Image.new("RGBA" if logo[0] == "rgba" else "RGB", shape, (200, 30, 30, 200) if logo[0] == "rgba" else (200, 30, 30))
             kw["embeded_image"] = logo_img; kw["embeded_image_ratio"] = logo[1]
         key = f"{dname} {mk} back={back} c1={c1} c2={c2} box={box} border={border} logo={logo} v{q.version if q._version else '?'} #{idx}"
         paint_exp_req = f"{fmt_list(back)}"
         try:
             im = q.make_image(image_factory=StyledPilImage, **kw)
+            if idx % 3 == 1:
+                # exports in other formats first (one may be refused, e.g. JPEG for an image with alpha): must not change the image
+                for kind_ in (["JPEG", "jpeg"][idx % 2:][:1] if len(back) == 4 or idx % 2 else []) + [["BMP", "GIF", "PNG", "TIFF"][(idx // 3) % 4]]:
+                    try:
+                        im.save(io.BytesIO(), kind=kind_)
+                    except Exception:  # noqa
+                        pass
             img = im.get_image()
             buf = io.BytesIO(); im.save(buf)
             img2 = Image.open(io.BytesIO(buf.getvalue()))
@@ -147,6 +159,8 @@ def run(ctx):
         R.corr("paint_color", key, str(paint), str(mpaint), tag="P2:paint")
         cls = dict(paint_equals_back=(tuple(paint) == tuple(back)))
         problems = []
+        if len(back) == 4 and mk != "image" and nchan != 4:
+            problems.append(f"the mask's background {back} has an alpha channel, the image is mode {img.mode}: background pixels cannot equal it")
         if img.size != (size, size) or img2.size != (size, size):
             problems.append(f"image size {img.size}, expected {size}")
         if list(img2.convert(img.mode).getdata()) != list(img.getdata()):
